@@ -23,19 +23,35 @@ type C03Scn struct {
 	Caller    bool      `json:"caller"`
 	Ops       [][]EvOp  `json:"ops"` // per client task
 	AdvanceMs int64     `json:"advance_ms,omitempty"` // one clock jump the scheduler may take (rolling sinks)
+	Ack       bool      `json:"ack,omitempty"`        // C20: check durability at every acknowledgement
 }
 
-type c03 struct{}
+func (s *C03Scn) knobs() SimKnobs { return s.Knobs }
 
-func init() { register(c03{}) }
+type c03 struct{ ack bool }
 
-func (c03) ID() string    { return "C03" }
-func (c03) Level() string { return "exploration" }
-func (c03) Rule() string {
+func init() { register(c03{}); register(c03{ack: true}) }
+
+func (c c03) ID() string {
+	if c.ack {
+		return "C20"
+	}
+	return "C03"
+}
+func (c c03) Level() string {
+	if c.ack {
+		return "fault_enumeration"
+	}
+	return "exploration"
+}
+func (c c03) Rule() string {
+	if c.ack {
+		return "case = synchronous logger on the simulated console stream / file / rolling file (both layouts, configuration rendered in a random spelling), 1-4 client tasks with 1-N logging calls, scheduling tape; drawn by rapid from the seed. Crash points: the simulated OS state (simos inode contents, console stream) is monotone (checked: no truncation), so a kill at any point after an acknowledged call leaves at least the state at the acknowledgement; the harness records the length of every sink at the step each call returns and requires the call's complete line inside that prefix - i.e. every crash point after every acknowledgement of every explored schedule is enumerated. Non-trivial = at least 2 acknowledgements checked and at least one preemption; distinct = distinct context-switch trace hashes."
+	}
 	return "case = (sink configuration rendered in a random spelling, per-task lists of logging calls with payload sizes, pool mode, sink chunking/slowness, scheduling tape) drawn by rapid from the seed; executed under the token-passing scheduler. Non-trivial = at least one preemption (a runnable task was switched away from) AND the reach probe fired (a task obtained a pooled buffer or entered a sink write while another task's sink write was unfinished). distinct = distinct hashes of the context-switch trace (task, yield site at every switch, environment actions)."
 }
 
-func (c03) Decode(raw json.RawMessage) (any, error) {
+func (c c03) Decode(raw json.RawMessage) (any, error) {
 	var s C03Scn
 	err := json.Unmarshal(raw, &s)
 	return &s, err
@@ -43,8 +59,9 @@ func (c03) Decode(raw json.RawMessage) (any, error) {
 
 var c03Sizes = []int{0, 8, 40, 200, 900, 1100, 4000, 11000}
 
-func (c03) Gen(rt *rapid.T, thorough bool) any {
+func (c c03) Gen(rt *rapid.T, thorough bool) any {
 	s := &C03Scn{Knobs: genKnobs(rt)}
+	s.Ack = c.ack
 	s.Mode = rapid.SampledFrom([]string{"builtin", "refresh", "refresh", "refresh", "direct"}).Draw(rt, "mode")
 	s.Caller = rapid.Bool().Draw(rt, "caller")
 	maxTasks, maxOps := 4, 4
@@ -55,7 +72,11 @@ func (c03) Gen(rt *rapid.T, thorough bool) any {
 			maxOps = 2
 		}
 	}
-	nt := rapid.IntRange(2, maxTasks).Draw(rt, "tasks")
+	minTasks := 2
+	if c.ack {
+		minTasks, maxTasks = 1, 4
+	}
+	nt := rapid.IntRange(minTasks, maxTasks).Draw(rt, "tasks")
 	for t := 0; t < nt; t++ {
 		n := rapid.IntRange(1, maxOps).Draw(rt, "nops")
 		var ops []EvOp
@@ -132,7 +153,7 @@ type sinkRec struct {
 	lo, hi int32 // reference range (events with code in [lo,hi) are routed here)
 }
 
-func (c03) Run(x *Exec, scn any) {
+func (c c03) Run(x *Exec, scn any) {
 	s := scn.(*C03Scn)
 	o := x.Out
 	x.FS.MkdirAll("/logs")
@@ -181,11 +202,11 @@ func (c03) Run(x *Exec, scn any) {
 		var err error
 		pv, st := call(func() { err = log.Refresh(cfg) })
 		if pv != nil {
-			o.violate("refresh-panic", "C03/refresh-panic/"+panicSite(st), "Refresh panicked on a valid configuration: %v\n%s", pv, short(st, 1500))
+			o.violate("refresh-panic", c.ID()+"/refresh-panic/"+panicSite(st), "Refresh panicked on a valid configuration: %v\n%s", pv, short(st, 1500))
 			return
 		}
 		if err != nil {
-			o.violate("refresh-error", "C03/refresh-error", "Refresh rejected a valid configuration: %v\nconfig=%v", err, cfg)
+			o.violate("refresh-error", c.ID()+"/refresh-error", "Refresh rejected a valid configuration: %v\nconfig=%v", err, cfg)
 			return
 		}
 		stop = log.Destroy
@@ -214,13 +235,20 @@ func (c03) Run(x *Exec, scn any) {
 
 	// clients
 	subs := make([][]*Submitted, len(s.Ops))
+	acks := map[string]ackSnap{}
 	for t := range s.Ops {
 		x.Sim.Spawn(fmt.Sprintf("client%d", t), func() {
 			for i, op := range s.Ops[t] {
+				var sb *Submitted
 				if direct != nil {
-					subs[t] = append(subs[t], emitDirect(direct, t, i, tagName, op))
+					sb = emitDirect(direct, t, i, tagName, op)
 				} else {
-					subs[t] = append(subs[t], emit(t, i, tag, tagName, op, log.InfoLevel))
+					sb = emit(t, i, tag, tagName, op, log.InfoLevel)
+				}
+				subs[t] = append(subs[t], sb)
+				if s.Ack && sb.Returned {
+					// no scheduling point between the return of the call and this snapshot
+					acks[sb.ID] = snapSinks(x)
 				}
 			}
 		})
@@ -232,7 +260,7 @@ func (c03) Run(x *Exec, scn any) {
 	}
 	res := x.Sim.Run(nil)
 	if res.Stuck || res.StepCap {
-		o.violate("blocked", "C03/log-call-blocked", "synchronous log calls did not finish: %+v", res)
+		o.violate("blocked", c.ID()+"/log-call-blocked", "synchronous log calls did not finish: %+v", res)
 	}
 	if d := x.Sim.Died(); len(d) > 0 {
 		panic(fmt.Sprintf("harness: client task died: %v\n%s", d[0].Panic, d[0].Stack))
@@ -242,7 +270,7 @@ func (c03) Run(x *Exec, scn any) {
 		x.Sim.Run(nil)
 	}
 	if d := x.Sim.Died(); len(d) > 0 {
-		o.violate("stop-panic", "C03/stop-panic", "Stop/Destroy panicked: %v", d[0].Panic)
+		o.violate("stop-panic", c.ID()+"/stop-panic", "Stop/Destroy panicked: %v", d[0].Panic)
 	}
 	x.Sim.Close()
 
@@ -253,11 +281,17 @@ func (c03) Run(x *Exec, scn any) {
 	}
 	for _, e := range all {
 		if e.Panic != nil {
-			o.violate("log-panic", "C03/log-call-panic/"+e.PanicAt, "log call %s panicked: %v", e.ID, e.Panic)
+			o.violate("log-panic", c.ID()+"/log-call-panic/"+e.PanicAt, "log call %s panicked: %v", e.ID, e.Panic)
 		}
 	}
 	o.Reached = (x.Sim.Probes["pool_get_during_sink_write"] > 0 || x.Sim.Probes["sink_write_overlap"] > 0) && x.Sim.Preemptions() > 0
+	if s.Ack {
+		o.Reached = len(acks) >= 2 && x.Sim.Preemptions() > 0
+	}
 	for _, sk := range sinks {
+		if s.Ack {
+			break // C20 judges acknowledgements only; line integrity is C03
+		}
 		var got [][]byte
 		switch sk.kind {
 		case "console":
@@ -313,9 +347,12 @@ func (c03) Run(x *Exec, scn any) {
 			break // all console sinks judged together
 		}
 	}
+	if s.Ack {
+		c.judgeAcks(x, s, sinks, all, acks, loggerRange)
+	}
 	for _, e := range x.FS.List("/logs") {
 		if e.Shrinks > 0 {
-			o.violate("file-shrunk", "C03/file-shrunk", "file %s lost content", e.Name)
+			o.violate("file-shrunk", c.ID()+"/file-shrunk", "file %s lost content", e.Name)
 		}
 	}
 }
@@ -335,4 +372,70 @@ func fileWrites(x *Exec, path string) [][]byte {
 		end = w.Off + w.Len
 	}
 	return out
+}
+
+// ackSnap is the simulated OS state summary taken at an acknowledgement: the
+// length of every file under /logs and the number of console writes. Contents
+// are append-only (checked), so the prefix of the final content of that length
+// is exactly the content at that step.
+type ackSnap struct {
+	files  map[string]int
+	stdout int
+}
+
+func snapSinks(x *Exec) ackSnap {
+	a := ackSnap{files: map[string]int{}}
+	for _, e := range x.FS.List("/logs") {
+		a.files["/logs/"+e.Name] = e.Size
+	}
+	a.stdout = len(x.FS.StdoutWrites())
+	x.Sim.Probe("acks_checked")
+	return a
+}
+
+func (c c03) judgeAcks(x *Exec, s *C03Scn, sinks []sinkRec, all []*Submitted, acks map[string]ackSnap, loggerRange mRange) {
+	o := x.Out
+	stdout := x.FS.StdoutWrites()
+	for _, e := range all {
+		a, ok := acks[e.ID]
+		if !ok {
+			continue
+		}
+		code := levelCodes[strings.ToUpper(e.Level)]
+		if !loggerRange.has(code) {
+			continue
+		}
+		for _, sk := range sinks {
+			if code < sk.lo || code >= sk.hi {
+				continue
+			}
+			line := string(refLine(e, sk.layout, sk.width, s.Caller))
+			found := false
+			switch sk.kind {
+			case "console":
+				for _, w := range stdout[:a.stdout] {
+					if string(w.Data) == line {
+						found = true
+					}
+				}
+			case "file":
+				data, _ := x.FS.ReadFile(sk.name)
+				n := a.files[sk.name]
+				found = n <= len(data) && strings.Contains(string(data[:n]), line)
+			case "rolling":
+				for name, n := range a.files {
+					if strings.HasPrefix(name, sk.name) {
+						data, _ := x.FS.ReadFile(name)
+						if n <= len(data) && strings.Contains(string(data[:n]), line) {
+							found = true
+						}
+					}
+				}
+			}
+			if !found {
+				o.violate("acked-line-not-in-os", "C20/acked-line-not-in-os/"+sk.kind,
+					"log call %s returned at step %d but its complete line was not in %s at that step (a kill right after the call would lose it): %q", e.ID, e.Return, sk.name, short(line, 200))
+			}
+		}
+	}
 }
